@@ -17,4 +17,5 @@ if ! go1.26.8 build -tags verif "${OVL[@]}" -o "$BIN" ./cmd/verifx >/tmp/verifx-
   echo "INFRA: harness build failed (not a verdict)"; cat /tmp/verifx-build.$$.log; rm -f /tmp/verifx-build.$$.log; exit 2
 fi
 rm -f /tmp/verifx-build.$$.log
+ulimit -v 60000000 2>/dev/null || true
 "$BIN" check "$ID"
